@@ -435,6 +435,20 @@ def diagnose_suite(ev):
     return "%s answered differently than an earlier call of the same test with the same argument values" % ev["f"]
 
 
+def run_tlaps(ctx):
+    """Unbounded proofs (any number of objects, functions and versions) of Purity, MemoStable, the error-state invariant and
+    AfterAssign for Session.tla: spec/SessionProofs.tla.  Negative control: without the assumption that the tree is the
+    repaired one (PopVariant = FALSE) the purity proof must fail (MakeContractionsPop changes the caller's list)."""
+    n, out = tlc.tlaps("SessionProofs", needs=("Session",))
+    if n is None:
+        raise tlc.MachineryError("TLAPS did not prove SessionProofs.tla:\n" + out[-1500:])
+    n2, out2 = tlc.tlaps("SessionProofs", needs=("Session",), subst=("ASSUME Repaired == PopVariant = FALSE", "ASSUME Repaired == TRUE"))
+    if n2 is not None or "obligations failed" not in out2:
+        raise tlc.MachineryError("negative control: SessionProofs.tla is still proved without the assumption PopVariant = FALSE")
+    ctx.extra["tlaps"] = {"module": "SessionProofs.tla", "theorems": ["PurityHolds", "MemoStableHolds", "ErrStateHolds", "ValFcnInv", "AfterAssignHolds"],
+                          "obligations_proved": n, "negative_control": "purity proof fails when PopVariant is unconstrained"}
+
+
 def run(pid, tier, seed, only_case=None):
     ctx = common.Ctx(pid, tier, seed)
     ctx.write_evidence = ctx.write_evidence and only_case is None
@@ -442,7 +456,7 @@ def run(pid, tier, seed, only_case=None):
     if only_case is not None:
         behaviours = [only_case["steps"]]
     else:
-        common.run_models_parallel([lambda: run_small_model(ctx, False), lambda: run_small_model(ctx, True)])
+        common.run_models_parallel([lambda: run_small_model(ctx, False), lambda: run_small_model(ctx, True), lambda: run_tlaps(ctx)])
         behaviours = simulate(ctx, 48 if quick else 400, 14 if quick else 30, seed)
         # behaviours the random walk rarely produces: the same call repeated around a driver change, every function once
         allf = sorted(FUNCS)
